@@ -73,11 +73,12 @@ type crossingMonitor struct {
 	sig, msg string
 	maxCross map[string]int
 	initTTL  map[string]int
+	injected map[string]bool
 	forwards map[string]int
 }
 
 func newMonitor() *crossingMonitor {
-	return &crossingMonitor{maxCross: map[string]int{}, initTTL: map[string]int{}, forwards: map[string]int{}}
+	return &crossingMonitor{maxCross: map[string]int{}, initTTL: map[string]int{}, forwards: map[string]int{}, injected: map[string]bool{}}
 }
 
 func (cm *crossingMonitor) fail(sig, msg string) {
@@ -128,13 +129,17 @@ func (cm *crossingMonitor) onForward(node int, in, out *vmesh.Packet) {
 
 func (cm *crossingMonitor) onSend(p *vmesh.Packet) {
 	k := vmesh.Key(p.Data)
-	if p.Data[1] == 0 {
+	if p.Data[1] == 0 && !(cm.injected[k] && cm.maxCross[k] == 0) { // the attacker's own injection may carry TTL 0
 		cm.fail("sent-with-ttl-zero", fmt.Sprintf("a frame (type %d) was put on link %d->%d with TTL 0", p.Data[4], p.From, p.To))
 	}
 	// crossing bound, for frames whose initial TTL the harness registered
 	if t, ok := cm.initTTL[k]; ok {
 		cm.maxCross[k]++
-		if cm.maxCross[k] > t-1 && !(p.Data[4] == byte(frame.RouterHopPing) || p.Data[4] == byte(frame.RouterHopPingDeprecated)) {
+		limit := t - 1
+		if limit < 1 {
+			limit = 1 // a frame injected with TTL 0: the injection itself is the only crossing allowed
+		}
+		if cm.maxCross[k] > limit && !(p.Data[4] == byte(frame.RouterHopPing) || p.Data[4] == byte(frame.RouterHopPingDeprecated)) {
 			cm.fail("crossing-bound-exceeded", fmt.Sprintf("a frame injected with TTL %d crossed %d links", t, cm.maxCross[k]))
 		}
 	}
@@ -402,7 +407,7 @@ func partB(res *core.Result, pool *idPool, r *rand.Rand, nInject int) {
 		mt := types[r.IntN(len(types))]
 		ttl := 1 + r.IntN(255)
 		if r.IntN(3) == 0 {
-			ttl = 1 + r.IntN(4)
+			ttl = r.IntN(5) // includes frames that arrive with TTL 0 (no honest router emits them; an attacker can)
 		}
 		dst := phantoms[r.IntN(len(phantoms))]
 		if r.IntN(4) == 0 {
@@ -447,6 +452,7 @@ func partB(res *core.Result, pool *idPool, r *rand.Rand, nInject int) {
 		f.ReturnToPool()
 		key := vmesh.Key(data)
 		cm.initTTL[key] = ttl + 1 // the injection itself is the first crossing (via -> at)
+		cm.injected[key] = true
 		p := ms.Inject(via, at, data)
 		ms.Take(ms.Pending() - 1)
 		_ = p
@@ -473,6 +479,82 @@ func partB(res *core.Result, pool *idPool, r *rand.Rand, nInject int) {
 			res.Count("max_forwards_of_one_frame", int64(fw)-res.Counter("max_forwards_of_one_frame"))
 		}
 		res.Case(fmt.Sprintf("%s|%d|%d|%d|%x", desc, mt, ttl, len(block), r.Uint64()), fw >= 3)
+	}
+}
+
+// partC: originated frames of every size around the pooled-buffer tiers must leave the origin (with the link
+// margins the real writer needs) and arrive: requests (signed and encrypted) and traffic-class frames over 2 hops.
+func partC(res *core.Result, pool *idPool, r *rand.Rand, sizes []int) {
+	t := vmesh.Line(3)
+	ms, err := vmesh.Build(r, t, pool.get(3), vmesh.BuildOpts{Labels: vmesh.LabelMode(1), Introduce: true})
+	if err != nil {
+		res.Inconcl("build: %v", err)
+		return
+	}
+	var mu sync.Mutex
+	var hits []probeHit
+	for _, n := range ms.Nodes {
+		if err := n.Inst.RouterV.RegisterPingHandler(&probeHandler{node: n.Idx, mu: &mu, hits: &hits}); err != nil {
+			res.Inconcl("register probe handler: %v", err)
+			return
+		}
+	}
+	if err := ms.Converge(r, false); err != nil {
+		res.Inconcl("mesh did not converge (C09's business): %v", err)
+		return
+	}
+	A, B := ms.Nodes[0], ms.Nodes[2]
+	if _, err := A.Inst.RouterV.HelloPing.Send(B.ID.IP); err != nil {
+		res.Inconcl("hello: %v", err)
+		return
+	}
+	ms.Drain(vmesh.FIFO, 200)
+	sess := A.Inst.StateV.GetSession(B.ID.IP)
+	if sess == nil || !sess.Encryption().IsSetUp() {
+		res.Inconcl("size sweep: no end-to-end keys")
+		return
+	}
+	for _, n := range sizes {
+		for _, mt := range []frame.MessageType{frame.RouterPing, frame.RouterCtrl} {
+			pingID := r.Uint64() | 1
+			pad, _ := cbor.Marshal(map[string][]byte{"x": make([]byte, n)})
+			data, err := buildPing(A, B.ID.IP, probeType, pingID, false, pad)
+			if err != nil || len(data) > 10000 {
+				continue
+			}
+			f, err := A.Inst.BuilderV.NewFrameV1(A.ID.IP, B.ID.IP, mt, nil, data, nil)
+			if err == nil {
+				err = f.Seal(sess)
+			}
+			if err != nil {
+				res.Inconcl("size sweep frame: %v", err)
+				return
+			}
+			hits = hits[:0]
+			lost := ms.LostForMargins
+			if err := A.Inst.RouterV.RouteFrame(f); err != nil {
+				res.Violate("request-not-routable", fmt.Sprintf("size sweep: node 0 cannot route a %d-byte request (type %d): %v", len(data), mt, err), map[string]any{"message_len": len(data), "type": mt})
+				return
+			}
+			ms.Drain(vmesh.FIFO, 100)
+			ok := false
+			for _, h := range hits {
+				if h.pingID == pingID && h.node == 2 {
+					ok = true
+				}
+			}
+			if !ok {
+				why := ""
+				if ms.LostForMargins > lost {
+					why = " (the frame lacks the margins the link writer needs for its header and MAC, so the real writer drops it)"
+				}
+				res.Violate("request-misdelivered:size", fmt.Sprintf("size sweep: an originated request with a %d-byte message (type %d) never reached its destination 2 hops away%s", len(data), mt, why),
+					map[string]any{"message_len": len(data), "type": mt, "case_id": fmt.Sprintf("size|%d|%d", mt, n)})
+				return
+			}
+			res.Case(fmt.Sprintf("size|%d|%d", mt, len(data)), true)
+			res.Count("size_sweep_requests_delivered", 1)
+		}
 	}
 }
 
@@ -518,10 +600,27 @@ func run(c *core.Ctx) {
 			partB(res, pool, r, perMesh)
 		}
 	})
+	// size sweep around every pooled tier (600/1600/5100/9600 minus headers and margins), all sizes in thorough
+	var sizes []int
+	for _, edge := range []int{600, 1600, 5100, 9600} {
+		for n := edge - 260; n <= edge+20; n++ {
+			if n > 0 && (c.Tier == core.Thorough || n%3 == 0 || (n > edge-200 && n < edge-90)) {
+				sizes = append(sizes, n)
+			}
+		}
+	}
+	parallel(4, func(w int) {
+		var part []int
+		for i := w; i < len(sizes); i += 4 {
+			part = append(part, sizes[i])
+		}
+		partC(res, &idPool{r: core.RNG(fmt.Sprintf("c10/idsc/%d", w))}, core.RNG(fmt.Sprintf("c10/c/%d", w)), part)
+	})
 	res.Sample(map[string]any{"part": "a", "mesh": "grid4x4", "pair": "0->15", "probes": []string{"custom ping via RouteFrame", "real pong request/reply", "label-switched frame over the table's forward block"}})
 	res.Sample(map[string]any{"part": "b", "mesh": "ring of 7 with every route to a phantom destination pointing clockwise", "frame": "type 17, TTL 200, no switch block"})
 	res.Assume("meshes are converged by the real announcement code first (C09); links are lossless")
 	res.Assume("flooded hop pings get a new appendix by design; for them bytes are compared up to the appendix")
 	res.Require(res.Counter("pairs_request_and_reply_ok") >= 500, "fewer than 500 ordered pairs exercised")
+	res.Require(res.Counter("size_sweep_requests_delivered") >= 200, "size sweep delivered fewer than 200 requests")
 	res.Require(res.Counter("adversarial_frames_forwarded_3plus") >= 50, "fewer than 50 adversarial frames were forwarded 3+ times")
 }
